@@ -53,6 +53,10 @@ def prepare(hs, g, path, n):
         g.column['f' + str(n)] = hs.MetadataObject()
     elif path == 'colmeta_append_reassigned':
         g.column['a'] = {'u': 'y'}
+    elif path == 'colmeta_set_adopted':
+        src = hs.Grid(version='3.0', columns=[('a', [('u', 'x')])])
+        g.column['h' + str(n)] = src.column['a']
+        g._verif_src = src
 
 
 def store(hs, g, path, kind, n):
@@ -89,6 +93,18 @@ def store(hs, g, path, kind, n):
         return lambda: g[-1]['a'] is v
     if path == 'setitem':
         g[0] = {'a': v}; return lambda: g[0]['a'] is v
+    if path == 'setslice_list':
+        g[0:1] = [{'a': v}]; return lambda: g[0]['a'] is v
+    if path == 'setslice_iter':
+        g[len(g):] = iter([{'a': 'x'}, {'a': v}]); return lambda: g[-1]['a'] is v
+    if path in ('setslice_grid', 'setslice_gridslice'):
+        src = hs.Grid(version='3.0', columns=[('a', [])])
+        src.extend([{'a': 'x'}, {'a': v}])
+        if path == 'setslice_grid':
+            g[0:0] = src
+            return lambda: g[1]['a'] is v
+        g[0:1] = src[1:2]
+        return lambda: g[0]['a'] is v
     if path == 'meta_set':
         g.metadata[k] = v; return lambda: g.metadata[k] is v
     if path == 'meta_append':
@@ -101,6 +117,11 @@ def store(hs, g, path, kind, n):
         g.column['e' + str(n)][k] = v; return lambda: g.column['e' + str(n)][k] is v
     if path == 'colmeta_set_assigned_mo':
         g.column['f' + str(n)][k] = v; return lambda: g.column['f' + str(n)][k] is v
+    if path == 'colmeta_set_adopted':
+        src = g._verif_src
+        g.column['h' + str(n)][k] = v
+        # the grid the metadata came from keeps its own: nothing stored here shows up there
+        return lambda: g.column['h' + str(n)][k] is v and list(src.column['a'].keys()) == ['u']
     if path == 'colmeta_append_reassigned':
         g.column['a'].append(k, v); return lambda: g.column['a'][k] is v
     if path == 'colmeta_append':
